@@ -56,6 +56,16 @@ theorem slice_set_not_symm_with_dups :
     equalsG {} 5 (.sset .i32) (.set false [.i32 1, .i32 2]) (.set false [.i32 1, .i32 1]) = false := by
   decide
 
+/-- Structs that repeat a field identifier (the decoder accepts them; the last entry wins) are
+compared through their field maps, the same both ways round. Before the repair of finding D87 the first
+comparison held and the second did not. -/
+theorem repeated_field_ids :
+    wireEq 3 (.struct [(1, .i32 7), (1, .i32 7)]) (.struct [(1, .i32 7), (2, .i32 9)]) = false ∧
+    wireEq 3 (.struct [(1, .i32 7), (2, .i32 9)]) (.struct [(1, .i32 7), (1, .i32 7)]) = false ∧
+    wireEq 3 (.struct [(1, .i32 9), (1, .i32 7)]) (.struct [(1, .i32 7)]) = true ∧
+    wireEq 3 (.struct [(1, .i32 7)]) (.struct [(1, .i32 9), (1, .i32 7)]) = true := by
+  decide
+
 /-- Lists are order-sensitive, sets are not. -/
 theorem list_order_sensitive :
     equalsG {} 5 (.list .i32) (.list [.i32 1, .i32 2]) (.list [.i32 2, .i32 1]) = false ∧
